@@ -6,10 +6,15 @@ import AsynqModel.Proofs.Futures
 Theorems about the model `AsynqModel.Futures` for every future kind of the model (Future with a returning / raising /
 self-completing provider, ConstFuture, ErrorFuture, AsyncTask with a non-blocking body) and every history of operations.
 Batches, batch items and blocking tasks are not kinds of this model.
+
+The hypothesis of `C10_spec_holds` (`statsOk`: collect_perf_stats() can run for the task) is a fact the harness probes
+on the tree under test (true on the current tree); `C10_statsOk_needed` shows that it cannot be dropped.  (Before the fix of
+futures.py `_computed` - safe_repr - the theorem needed a second hypothesis: no subscriber raises an un-printable exception.)
 -/
 namespace AsynqModel.Futures
 
-/-- set at most once: nothing but `reset_unsafe` changes the outcome of a computed future -/
+/-- set at most once: nothing but `reset_unsafe` changes the outcome of a computed future.  (The one-operation instance
+    of `C10_stable_until_reset`; listed under BY_CONSTRUCTION.) -/
 theorem C10_single_assignment (f : Fut) (o : Outc) (op : Op) (h : f.out = some o) (hr : op ≠ .reset) :
     (step f op).1.out = some o := by
   cases op <;> simp_all [step] <;> (repeat' split) <;> simp_all
@@ -67,8 +72,9 @@ theorem C10_set_error_none (f : Fut) :
 
 /-- a completion (uncomputed → computed, by any operation) notifies every subscriber exactly once, in
     subscription order, and each sees the new outcome and finds its own re-entrant set refused (`notif o`) - WHATEVER the
-    subscribers do while they are notified (raise, unsubscribe themselves or another handler, subscribe a new handler, try
-    to complete the future again).  What a subscriber sees is READ from the state of the future at the moment it is called
+    subscribers do while they are notified (raise an Exception - printable or not: the exception channel `firstRaise` /
+    `subEscapes` decides what the COMPLETER gets, see `C10_completer_result`, never who is notified -, unsubscribe
+    themselves or another handler, subscribe a new handler, try to complete the future again).  What a subscriber sees is READ from the state of the future at the moment it is called
     (`notifyOne`); that it is `some o` follows from `complete` storing before it notifies (lemma `complete_cbs`; a
     subscriber called with the earlier state records `none`, see the examples).  That the real `set_value` / `set_error`
     store before they call `_computed` is tied to the model by the correspondence run only. -/
@@ -83,7 +89,8 @@ theorem C10_notify_once_after_visible (f : Fut) (op : Op) (o : Outc)
   case option d on => cases d <;> simp_all
   case raiseIfError => simp_all
   case inspect => simp_all
-  all_goals (cases hk : f.kind <;> cases ha : f.alive <;> cases hx : hookExc f <;> simp_all [compute, complete_eq])
+  all_goals (cases hk : f.kind <;> cases ha : f.alive <;> cases hx : computedExc f <;> cases he : subEscapes f.subs <;>
+    simp_all [compute, complete_eq])
 
 /-- counting form: handler `j` is notified exactly as often as it is subscribed (once, for the harness' distinct ids),
     for every list of subscriber behaviours -/
@@ -106,12 +113,14 @@ theorem C10_subs_after_completion (f : Fut) (op : Op) (o : Outc)
   case option d on => cases d <;> simp_all
   case raiseIfError => simp_all
   case inspect => simp_all
-  all_goals (cases hk : f.kind <;> cases ha : f.alive <;> cases hx : hookExc f <;> simp_all [compute, complete_eq])
+  all_goals (cases hk : f.kind <;> cases ha : f.alive <;> cases hx : computedExc f <;> cases he : subEscapes f.subs <;>
+    simp_all [compute, complete_eq])
 
-/-- handlers that do not touch the handler list (well-behaved, raising, re-entrant) all stay subscribed -/
+/-- handlers that do not touch the handler list (well-behaved, raising, re-entrant) all stay subscribed
+    (the hypothesis is needed: a one-shot handler is gone afterwards, example below) -/
 theorem C10_passive_subs_stay (subs : List Sub)
-    (h : ∀ s ∈ subs, s.2 = .good ∨ s.2 = .raising ∨ ∃ o, s.2 = .reenter o) : afterNotify subs = subs := by
-  have key : ∀ (l acc : List Sub), (∀ s ∈ l, s.2 = .good ∨ s.2 = .raising ∨ ∃ o, s.2 = .reenter o) →
+    (h : ∀ s ∈ subs, s.2 = .good ∨ s.2 = .raising ∨ s.2 = .raisingBad ∨ ∃ o, s.2 = .reenter o) : afterNotify subs = subs := by
+  have key : ∀ (l acc : List Sub), (∀ s ∈ l, s.2 = .good ∨ s.2 = .raising ∨ s.2 = .raisingBad ∨ ∃ o, s.2 = .reenter o) →
       l.foldl applyBeh acc = acc := by
     intro l
     induction l with
@@ -120,7 +129,7 @@ theorem C10_passive_subs_stay (subs : List Sub)
       intro acc hl
       have hs := hl s (by simp)
       have : applyBeh acc s = acc := by
-        rcases hs with h | h | ⟨o, h⟩ <;> simp [applyBeh, h]
+        rcases hs with h | h | h | ⟨o, h⟩ <;> simp [applyBeh, h]
       simp only [List.foldl_cons, this]
       exact ih acc (fun t ht => hl t (by simp [ht]))
   exact key subs subs h
@@ -167,6 +176,10 @@ theorem C10_unsubscribed_not_notified (f : Fut) (j : Nat) (hk : f.kind.sinking =
   · exact not_mem_of_hasSub_false _ _ hh
   · exact not_mem_eraseSub _ _ hnd
 
+example : afterNotify [(1, .oneShot), (2, .good)] ≠ [(1, .oneShot), (2, .good)] := by decide
+/-- necessity of `hk` (only on states no history reaches: a sinking kind that has a subscriber) -/
+example : 1 ∈ ((step (step { (init (.const 1)) with out := none, subs := [(1, .good)] } (.unsubscribe 1)).1
+    (.setValue 2)).2.2).map (·.sub) := by decide
 /-- necessity of `Nodup`: a handler subscribed twice and unsubscribed once is still notified (list.remove semantics) -/
 example : 1 ∈ ((step (step { (init (.lazyOk 1)) with subs := [(1, .good), (1, .good)] } (.unsubscribe 1)).1 .value).2.2).map
     (·.sub) := by decide
@@ -220,12 +233,22 @@ example : ¬ (finalState (init (.lazyOk 1)) [.value, .reset, .value]).runs ≤ 0
 
 /-! ### the observer -/
 
-/-- **C10 as a whole**: for every kind of future and every history of operations, the observations of the
-    model are accepted by the observer `spec` - the same Boolean function the check evaluates on the
-    observations of the real implementation. -/
-theorem C10_spec_holds (k : Kind) (c : Cfg) (ops : List Op) : spec k (run (init k c) ops) c = true := by
-  obtain ⟨w', h⟩ := watchRun_ok k ops (watchInit k c) (init k c) (rel_init k c)
+/-- **C10 as a whole**: for every kind of future, every creation-time configuration in which the perf-stats step of a
+    task can run (`hstats`; a fact of the tree under test, probed by the harness, true today) and every history of
+    operations, the observations of the model are accepted by the observer `spec` - the same Boolean function the check
+    evaluates on the observations of the real implementation.  `hstats` cannot be dropped: `C10_statsOk_needed`. -/
+theorem C10_spec_holds (k : Kind) (c : Cfg) (ops : List Op)
+    (hstats : k.isTask = true → c.statsOk = true) : spec k (run (init k c) ops) = true := by
+  obtain ⟨w', h⟩ := watchRun_ok k ops (watchInit k) (init k c) (rel_init k c hstats)
   simp [spec, h]
+
+/-- the hypothesis `hstats` of `C10_spec_holds_partial` cannot be dropped: a task whose perf-stats step cannot run,
+    completed under COLLECT_PERF_STATS, hands the exception of that step to the completing `value()` (the model of the
+    trees before 9ee915e / f0f10a3); the observer rejects that answer -/
+theorem C10_statsOk_needed :
+    specClause (.taskOk 1) (run (init (.taskOk 1) { statsOk := false }) [.option .perfStats true, .value]) = "compute-read@value" ∧
+    specClause (.taskOk 1) (run (init (.taskOk 1) { statsOk := false }) [.option .perfStats true, .setValue 2]) = "set@setValue" ∧
+    True := by decide
 
 /-- what the observer ENFORCES about the computation, for arbitrary observations (not only the model's): an accepted
     observation shows at most one more run, none if the observer knows the future computed, and one more only for a
@@ -235,50 +258,126 @@ theorem C10_spec_enforces_runs (k : Kind) (w w' : Watch) (ob : Obs) (h : watchSt
     (ob.runs = w.runs + 1 → w.known = none ∧ (ob.op = .value ∨ ob.op = .call ∨ ob.op = .error) ∧
       ob.after = k.natural ∧ ob.after.isSome) := by
   unfold watchStep at h
-  cases hkn : w.known <;> cases hop : ob.op <;> simp only [hkn, hop] at h <;>
+  cases hkn : w.known <;> cases hop : ob.op <;> simp only [hkn, hop, setStep, readStep] at h <;>
     (repeat' split at h) <;> simp_all [computeOk] <;> (try omega) <;>
     (by_cases hr : ob.runs = w.runs <;> by_cases ht : (k.isTask = true ∧ w.done = true) <;> simp_all <;> (try omega))
 
 /-- what the observer ENFORCES about a computing read, for arbitrary observations: a read that finds the future
     uncomputed and leaves it computed with `o` is accepted only if the computation ran exactly once and `o` is ITS outcome
-    (kinds other than an AsyncTask that was completed before: such a task has no generator left, see `computeOk`) -/
+    (kinds other than an AsyncTask that was completed before: such a task has no generator left, see `computeOk`; the
+    example after the theorem shows that `ht` is needed) -/
 theorem C10_spec_enforces_outcome (k : Kind) (w w' : Watch) (ob : Obs) (o : Outc) (h : watchStep k w ob = .ok w')
     (hkn : w.known = none) (hop : ob.op = .value ∨ ob.op = .call ∨ ob.op = .error) (ha : ob.after = some o)
     (ht : k.isTask = false ∨ w.done = false) : ob.runs = w.runs + 1 ∧ k.natural = some o := by
   unfold watchStep at h
-  rcases hop with hop | hop | hop <;> simp only [hkn, hop, ha] at h <;>
+  rcases hop with hop | hop | hop <;> simp only [hkn, hop, ha, readStep] at h <;>
     (repeat' split at h) <;> simp_all [computeOk] <;>
     (by_cases hr : ob.runs = w.runs <;> rcases ht with ht | ht <;> simp_all)
 
-/-- an accepted computing read reports the stored outcome, except for the two kind-specific answers of `freshReadOk` -/
+/-- necessity of `ht`: a task that was completed and reset answers None without running its body, and is accepted -/
+example : (watchStep (.taskOk 1) { known := none, subs := [], runs := 1, done := true }
+    { op := .value, res := .ok 0, cbs := [], after := some (.val 0), runs := 1 }).toOption
+    = some { known := some (.val 0), subs := [], runs := 1, done := true } ∧ (Kind.taskOk 1).natural ≠ some (.val 0) := by decide
+
+/-- an accepted computing read reports the stored outcome, except for the two kind-specific answers of `freshReadOk`
+    (both hypotheses are needed: the examples "open answer" below) -/
 theorem C10_spec_enforces_read (k : Kind) (w w' : Watch) (ob : Obs) (o : Outc) (h : watchStep k w ob = .ok w')
     (hop : ob.op = .value ∨ ob.op = .call ∨ ob.op = .error) (ha : ob.after = some o)
-    (hk : ∀ e, k ≠ .lazyErr e) (hk' : ∀ v v', k ≠ .lazySelfSet v v') (hh : hookMay k w = false) :
+    (hk : ∀ e, k ≠ .lazyErr e) (hk' : ∀ v v', k ≠ .lazySelfSet v v') :
     ob.res = (if ob.op = .error then readError o else readValue o) := by
   unfold watchStep at h
-  cases hkn : w.known <;> rcases hop with hop | hop | hop <;> simp only [hkn, hop, ha] at h <;>
+  cases hkn : w.known <;> rcases hop with hop | hop | hop <;> simp only [hkn, hop, ha, readStep] at h <;>
     (repeat' split at h) <;> cases k <;> simp_all [freshReadOk, readOk]
 
-/-- what the observer ENFORCES about notifications, for arbitrary observations and WHATEVER the completing operation
-    answered (its plain result, or the exception of a failing perf-stats step): an accepted observation that shows an
+/-- what the observer ENFORCES about notifications, for arbitrary observations: an accepted observation that shows an
     uncomputed future computed with `o` carries exactly the notifications the property asks for (`notifiedAll`), and the
     observer goes on with outcome `o` and the handler list the round leaves behind -/
 theorem C10_spec_enforces_notify (k : Kind) (w w' : Watch) (ob : Obs) (o : Outc) (h : watchStep k w ob = .ok w')
     (hkn : w.known = none) (ha : ob.after = some o) :
     notifiedAll w.subs ob.cbs o = true ∧ w'.known = some o ∧ w'.subs = afterNotify w.subs := by
   unfold watchStep at h
-  cases hop : ob.op <;> simp only [hkn, hop, ha] at h <;> (repeat' split at h) <;> simp_all <;>
+  cases hop : ob.op <;> simp only [hkn, hop, ha, setStep, readStep] at h <;> (repeat' split at h) <;> simp_all <;>
     (subst h; simp_all)
 
-/-- an accepted `set_value` / `set_error` on a future known uncomputed returns normally - unless the future is an
-    AsyncTask whose perf-stats step cannot run (no profiler id / an argument without repr) completed under COLLECT_PERF_STATS (`hookMay`): then, and only then, the completer may
-    get the exception of the perf-stats step instead -/
+/-- an accepted `set_value` / `set_error` on a future known uncomputed RETURNED (no creation-time fact and no debug
+    option lets the observer accept an exception from it) -/
 theorem C10_spec_enforces_set (k : Kind) (w w' : Watch) (ob : Obs) (h : watchStep k w ob = .ok w')
-    (hkn : w.known = none) (hop : ob.op.isSet = true) :
-    ob.res = .unit ∨ (hookMay k w = true ∧ ob.res = .raised .hook) := by
+    (hkn : w.known = none) (hop : ob.op.isSet = true) : ob.res = .unit := by
   unfold watchStep at h
-  cases hop' : ob.op <;> simp only [hkn, hop', Op.isSet] at h hop <;> (try contradiction) <;>
-    (repeat' split at h) <;> simp_all [setResOk]
+  cases hop' : ob.op <;> simp only [hkn, hop', Op.isSet, setStep] at h hop <;> (try contradiction) <;>
+    (repeat' split at h) <;> simp_all
+
+/-- what the observer ENFORCES once it knows the future computed with `o`, for arbitrary observations: every accepted
+    observation other than `reset_unsafe()` shows the same outcome, no notification, no run; reads report `o`,
+    `is_computed()` is True, every `set_value` / `set_error` raised FutureIsAlreadyComputed ("a second set raises and
+    changes nothing"), and the observer still knows `o`.  (Second audit, R7.) -/
+theorem C10_spec_enforces_stable (k : Kind) (w w' : Watch) (ob : Obs) (o : Outc) (h : watchStep k w ob = .ok w')
+    (hkn : w.known = some o) (hr : ob.op ≠ .reset) :
+    ob.after = some o ∧ ob.cbs = [] ∧ ob.runs = w.runs ∧ w'.known = some o ∧
+    ((ob.op = .value ∨ ob.op = .call) → ob.res = readValue o) ∧ (ob.op = .error → ob.res = readError o) ∧
+    (ob.op = .isComputed → ob.res = .bool true) ∧ (ob.op.isSet = true → ob.res = .raised .alreadyComputed) := by
+  unfold watchStep at h
+  cases hop : ob.op <;> simp only [hkn, hop] at h hr <;> (try contradiction) <;>
+    (repeat' split at h) <;> simp_all [readOk, Op.isSet, unsubStep] <;> (try (repeat' split at h)) <;> (try (subst h)) <;> (try simp_all) <;> (try (subst w'; simp_all))
+
+/-- necessity of `hr`: `reset_unsafe()` is accepted and leaves the future uncomputed -/
+example : (watchStep (.lazyOk 1) { known := some (.val 1), subs := [], runs := 1, done := true }
+    { op := .reset, res := .unit, cbs := [], after := none, runs := 1 }).toOption
+    = some { known := none, subs := [], runs := 1, done := true } := by decide
+
+/-! ### the exception channels of a completion: subscribers, perf-stats step -/
+
+/-- **printable exceptions are swallowed**: a round in which no subscriber raises an un-printable exception lets nothing
+    escape - however many subscribers raise, fail to unsubscribe, ... -/
+theorem C10_printable_exceptions_swallowed (subs : List Sub) (h : noBad subs = true) : subEscapes subs = false :=
+  subEscapes_noBad subs h
+
+/-- the plain answer of the operation that completes a future of kind `k` with `o` -/
+def plainRes (k : Kind) (op : Op) (o : Outc) : Res :=
+  if op.isSet then .unit else
+  match k with
+  | .lazyErr e => .raised (.user e)                 -- Future._compute re-raises the provider's exception (also into error())
+  | .lazySelfSet _ _ => .raised .alreadyComputed    -- the provider's own result is refused
+  | _ => if op = .error then readError o else readValue o
+
+/-- what the operation that completes the future answers, in terms of the two exception channels -/
+def completerRes (f : Fut) (op : Op) (o : Outc) : Res :=
+  if subEscapes f.subs then .raised (if op.isSet then .subRepr else f.kind.escRead)
+  else if hookFails f then .raised .hook
+  else plainRes f.kind op o
+
+/-- **the completer's answer**, from ANY uncomputed state and for whichever operation completes the future: the
+    exception of `repr(e)` for the first exception `e` a subscriber raised, if that cannot be printed (`subEscapes`; a
+    `Future` with a returning provider turns it into FutureIsAlreadyComputed); otherwise the exception of the perf-stats
+    step if that cannot run (`hookFails`); otherwise the plain answer.  In ALL three cases the outcome is stored and every
+    subscriber of the snapshot is notified once, reading it. -/
+theorem C10_completer_result (f : Fut) (op : Op) (o : Outc)
+    (h0 : f.out = none) (h1 : (step f op).1.out = some o) :
+    (step f op).2.1 = completerRes f op o ∧ (step f op).2.2 = f.subs.map (notif o) := by
+  refine ⟨?_, C10_notify_once_after_visible f op o h0 h1⟩
+  cases op <;> simp only [step, h0] at h1 ⊢
+  case isComputed => simp_all
+  case reset => simp_all
+  case subscribe => split at h1 <;> simp_all
+  case unsubscribe => (repeat' split at h1) <;> simp_all
+  case option d on => cases d <;> simp_all
+  case raiseIfError => simp_all
+  case inspect => simp_all
+  all_goals (cases hk : f.kind <;> cases ha : f.alive <;> cases he : subEscapes f.subs <;> cases hf : hookFails f <;>
+    simp_all [compute, complete_eq, setRes, computedExc, hookExc, completerRes, plainRes, Op.isSet, Kind.escRead,
+      readValue, readError] <;>
+    (try (cases o <;> simp_all [hookFails, Kind.isTask])))
+
+/-- **"even if another subscriber raises an Exception"**, for printable exceptions: if no subscriber of the round raises
+    an un-printable exception and the perf-stats step can run, the completer gets the plain answer and everybody is notified
+    once, reading the outcome (both hypotheses are needed: `C10_subscriber_exception_escapes`, the example after
+    `C10_hook_failure_after_notification`) -/
+theorem C10_raising_subscribers_swallowed (f : Fut) (op : Op) (o : Outc)
+    (h0 : f.out = none) (h1 : (step f op).1.out = some o) (hnb : noBad f.subs = true) (hh : hookFails f = false) :
+    (step f op).2.1 = plainRes f.kind op o ∧ (step f op).2.2 = f.subs.map (notif o) := by
+  have h := C10_completer_result f op o h0 h1
+  simp only [completerRes, subEscapes_noBad f.subs hnb, hh] at h
+  simpa using h
 
 /-! ### debug options switched while the future is in flight -/
 
@@ -296,27 +395,21 @@ theorem C10_quiet_ops (f : Fut) (op : Op) (h : op.quiet = true) :
   case raiseIfError => cases ho : f.out <;> simp [step, ho]
   case inspect => simp [step]
 
-/-- **a failing perf-stats step does not cost a notification**: whichever operation completes an uncomputed future, the
-    exception of `collect_perf_stats()` reaches the completer exactly when the future is an AsyncTask whose perf-stats step
-    cannot run and COLLECT_PERF_STATS is on at that moment (`hookFails`: e.g. the option was switched on after the task was
-    created, so that it has no profiler id; or repr() of an argument raises) - and
-    in BOTH cases the outcome is stored and every subscriber of the snapshot is notified once, reading it.
-    (AsyncTask._computed runs the step inside `try: ... finally: FutureBase._computed(self)`.) -/
+/-- **a failing perf-stats step does not cost a notification** (model of a tree on which `collect_perf_stats()` cannot run
+    for some task, `statsOk = false`; not the current tree): whichever operation completes an uncomputed future, the
+    exception of the step reaches the completer exactly when the future is such an AsyncTask and COLLECT_PERF_STATS is on
+    at that moment (`hookFails`) - and in BOTH cases the outcome is stored and every subscriber of the snapshot is
+    notified once, reading it.  (AsyncTask._computed runs the step inside `try: ... finally: FutureBase._computed(self)`.)
+    `hesc`: no subscriber exception escapes from the finally clause (it would replace the exception of the step, example
+    below). -/
 theorem C10_hook_failure_after_notification (f : Fut) (op : Op) (o : Outc)
-    (h0 : f.out = none) (h1 : (step f op).1.out = some o) :
+    (h0 : f.out = none) (h1 : (step f op).1.out = some o) (hesc : subEscapes f.subs = false) :
     ((step f op).2.1 = .raised .hook ↔ hookFails f = true) ∧ (step f op).2.2 = f.subs.map (notif o) := by
-  refine ⟨?_, C10_notify_once_after_visible f op o h0 h1⟩
-  cases op <;> simp only [step, h0] at h1 ⊢
-  case isComputed => simp_all
-  case reset => simp_all
-  case subscribe => split at h1 <;> simp_all
-  case unsubscribe => (repeat' split at h1) <;> simp_all
-  case option d on => cases d <;> simp_all
-  case raiseIfError => simp_all
-  case inspect => simp_all
-  all_goals (cases hk : f.kind <;> cases ha : f.alive <;> cases hp : f.perf <;> cases hi : f.statsOk <;>
-    simp_all [compute, complete_eq, setRes, hookExc, hookFails, Kind.isTask, readValue, readError] <;>
-    (try (cases o <;> simp_all)))
+  have h := C10_completer_result f op o h0 h1
+  refine ⟨?_, h.2⟩
+  rw [h.1]
+  cases hf : hookFails f <;> simp [completerRes, hesc, hf, plainRes]
+  (repeat' split) <;> simp_all [readValue, readError] <;> (repeat' split) <;> simp_all
 
 /-- only `option COLLECT_PERF_STATS` changes whether the step will fail; whether it CAN run is fixed at creation -/
 theorem C10_hook_state (f : Fut) (op : Op) :
@@ -326,15 +419,16 @@ theorem C10_hook_state (f : Fut) (op : Op) :
 
 /-! ## non-vacuity and rejection examples -/
 
-/-- profiling switched on while the task is in flight: the completing read gets the exception of the perf-stats step,
-    both subscribers (one of them raising) were notified and read the outcome, later reads report it -/
+/-- a tree on which the perf-stats step cannot run for the task (`statsOk := false`), profiling switched on while the task
+    is in flight: the completing read gets the exception of the step, both subscribers (one of them raising) were
+    notified and read the outcome, later reads report it -/
 example : (run (init (.taskOk 1) { statsOk := false })
       [.subscribe 1 .raising, .subscribe 2 .good, .option .perfStats true, .value, .value, .setValue 2]).map
       (fun ob => (ob.res, ob.cbs.map (fun c => (c.sub, c.seen)), ob.after))
     = [(.unit, [], none), (.unit, [], none), (.unit, [], none),
        (.raised .hook, [(1, some (.val 1)), (2, some (.val 1))], some (.val 1)),
        (.ok 1, [], some (.val 1)), (.raised .alreadyComputed, [], some (.val 1))] := by decide
-/-- the same task with a profiler id and printable arguments (profiling on when it was created, or the compiled build): no exception -/
+/-- the same task when the step can run (the current tree): no exception -/
 example : ((run (init (.taskOk 1) { statsOk := true, perf := true }) [.subscribe 1 .good, .value]).map (·.res))
     = [.unit, .ok 1] := by decide
 /-- the observer rejects the lost notification under a failing perf-stats step (seeded change C10-9: the step moved out
@@ -343,14 +437,33 @@ example : specClause (.taskOk 1)
     [{ op := .subscribe 1 .good, res := .unit, cbs := [], after := none, runs := 0 },
      { op := .option .perfStats true, res := .unit, cbs := [], after := none, runs := 0 },
      { op := .value, res := .raised .hook, cbs := [], after := some (.val 1), runs := 1 }]
-     { statsOk := false } = "notify-once@value" := by decide
-/-- ... and the exception of the perf-stats step from a task that has a profiler id, or while profiling is off -/
+     = "notify-once@value" := by decide
+/-- ... and the exception of the perf-stats step as the answer of the completer, notifications or not -/
 example : specClause (.taskOk 1)
     [{ op := .option .perfStats true, res := .unit, cbs := [], after := none, runs := 0 },
      { op := .value, res := .raised .hook, cbs := [], after := some (.val 1), runs := 1 }] = "compute-read@value" := by decide
 example : specClause (.taskOk 1)
     [{ op := .setValue 3, res := .raised .hook, cbs := [], after := some (.val 3), runs := 0 }]
-     { statsOk := false } = "set@setValue" := by decide
+     = "set@setValue" := by decide
+/-- the wrong observations of the second audit (AUDIT2-lib N3, reports2/C10.md R1, R3, R4), accepted by the previous observer
+    or unreachable for it, all rejected now: (R1) `value()` of a task raising the exception of the perf-stats step with
+    everybody notified - whatever `Cfg` says -/
+example : specClause (.taskOk 1)
+    [{ op := .subscribe 1 .good, res := .unit, cbs := [], after := none, runs := 0 },
+     { op := .option .perfStats true, res := .unit, cbs := [], after := none, runs := 0 },
+     { op := .value, res := .raised .hook, cbs := [{ sub := 1, seen := some (.val 1) }], after := some (.val 1), runs := 1 },
+     { op := .value, res := .ok 1, cbs := [], after := some (.val 1), runs := 1 }] = "compute-read@value" := by decide
+/-- (R4) the subscriber after a raising one is dropped -/
+example : specClause (.lazyOk 1)
+    [{ op := .subscribe 1 .raising, res := .unit, cbs := [], after := none, runs := 0 },
+     { op := .subscribe 2 .good, res := .unit, cbs := [], after := none, runs := 0 },
+     { op := .value, res := .ok 1, cbs := [{ sub := 1, seen := some (.val 1) }], after := some (.val 1), runs := 1 }]
+     = "notify-once@value" := by decide
+/-- `C10_stable_until_reset` / `C10_const_complete` need "no reset"; `C10_const_complete` needs a sinking kind;
+    `C10_notify_once_after_visible` needs an uncomputed future -/
+example : (run (finalState (init (.lazyOk 1)) [.value]) [.reset, .isComputed]).map (·.after) = [none, none] ∧
+    (init (.lazyOk 1)).out = none ∧
+    (step (finalState (init (.lazyOk 1)) [.subscribe 1 .good, .value]) .value).2.2 = [] := by decide
 /-- `raise_if_error()` and `repr()` of an uncomputed future must not compute it -/
 example : specClause (.lazyOk 1)
     [{ op := .inspect, res := .unit, cbs := [], after := some (.val 1), runs := 1 }] = "provider-once@inspect" := by decide
